@@ -46,8 +46,27 @@ def _fn_ast(fn):
 def _consts(t, typ):
     """every constant of type `typ` in the function, in source order, duplicates removed (independent of whether the code keeps them in a
     list, a tuple, a module-level name's default or inline: a harmless re-layout of the literals must not change what is read)"""
-    cs = sorted(((n.lineno, n.col_offset, n.value) for n in ast.walk(t) if isinstance(n, ast.Constant) and type(n.value) is typ
-                 and not isinstance(getattr(n, "_parent", None), ast.Expr)), key=lambda x: x[:2])
+    cs = [(n.lineno, n.col_offset, 0, n.value) for n in ast.walk(t) if isinstance(n, ast.Constant) and type(n.value) is typ
+          and not isinstance(getattr(n, "_parent", None), ast.Expr)]
+    # literals kept in a class attribute or a module-level name the function refers to (`self.X`, `cls.X`, `BeautifulSoup.X`, `X`)
+    import bs4
+    for n in ast.walk(t):
+        v = None
+        if isinstance(n, ast.Attribute) and isinstance(n.value, ast.Name) and n.value.id in ("self", "cls", "BeautifulSoup"):
+            v = getattr(bs4.BeautifulSoup, n.attr, None)
+        elif isinstance(n, ast.Name) and n.id.isupper():
+            v = getattr(bs4, n.id, None)
+        if isinstance(v, (tuple, list, frozenset, set)):
+            items = sorted(v) if isinstance(v, (set, frozenset)) else list(v)
+        elif type(v) is typ:
+            items = [v]
+        else:
+            continue
+        for k, it in enumerate(items):
+            if type(it) is typ:
+                cs.append((n.lineno, n.col_offset, k, it))
+    cs.sort(key=lambda x: x[:3])
+    cs = [(a, b, d) for a, b, _, d in cs]
     out = []
     for _, _, v in cs:
         if v not in out:
